@@ -121,9 +121,13 @@ pub(crate) fn scan_and_apply_units<S: TexlangState>(
                 }
             }
             super::OptionalSpace::parse(input)?;
+            // The fraction can round up to 1, so the sum can be 2^30 (16383.999999fil):
+            // TeX.2021.448 attach_sign reports that too.
             return match Scaled::from_integer(integer_part) {
-                Ok(integer_part) => Ok(integer_part + fractional_part),
-                Err(_) => handle_overflow(input, first_token, false),
+                Ok(integer_part) if integer_part + fractional_part <= Scaled::MAX_DIMEN => {
+                    Ok(integer_part + fractional_part)
+                }
+                _ => handle_overflow(input, first_token, false),
             };
         }
     }
